@@ -98,6 +98,7 @@ type lpath struct {
 	notes  []string // things the interpreter could not model (make the path undecided)
 	effect []string // stores through the receiver etc.
 	nfresh int
+	havoc  map[*ssa.BasicBlock]bool // loop headers whose phis were replaced by unknowns on this path
 }
 
 func (s *lpath) clone() *lpath {
@@ -111,6 +112,12 @@ func (s *lpath) clone() *lpath {
 	for k, v := range s.mem {
 		o.mem[k] = v
 	}
+	if s.havoc != nil {
+		o.havoc = map[*ssa.BasicBlock]bool{}
+		for k, v := range s.havoc {
+			o.havoc[k] = v
+		}
+	}
 	return o
 }
 
@@ -121,6 +128,8 @@ type layoutInterp struct {
 	// rootName: name used for the receiver (parameter 0) in access paths
 	results []*lpath
 	act     int // activation id: local cells of different calls of one function are distinct
+	// names given to loop-header phis that were replaced by unknowns
+	havocNames map[*ssa.Phi]string
 }
 
 const staleSrc = "STALE"
@@ -296,11 +305,16 @@ func (li *layoutInterp) walk(fn *ssa.Function, b, from *ssa.BasicBlock, st *lpat
 		return
 	}
 	if visits[b] > 0 {
+		if st.havoc[b] {
+			// the header's phis already stand for the state of any iteration: this path adds nothing
+			return
+		}
 		st.notes = append(st.notes, fmt.Sprintf("loop at block %d of %s not summarised", b.Index, FuncName(fn)))
 		*out = append(*out, st)
 		return
 	}
 	// loop header with a recognisable accumulation pattern
+	havocHere := false
 	if lp := headerLoop(b); lp != nil && from != nil && !lp.Body[from] {
 		if exit, ok := li.summariseLoop(fn, lp, from, st); ok {
 			nv := map[*ssa.BasicBlock]int{}
@@ -310,12 +324,42 @@ func (li *layoutInterp) walk(fn *ssa.Function, b, from *ssa.BasicBlock, st *lpat
 			li.walk(fn, exit, lp.Header, st, nv, out)
 			return
 		}
+		// a loop that only computes (no store, call, send): its header phis become unknowns of their type
+		// ("the state of some iteration"), the exit condition then constrains them
+		if pureLoop(lp) {
+			havocHere = true
+			if st.havoc == nil {
+				st.havoc = map[*ssa.BasicBlock]bool{}
+			}
+			st.havoc[b] = true
+		}
 	}
 	visits[b]++
 	defer func() { visits[b]-- }()
 	for _, in := range b.Instrs {
 		switch x := in.(type) {
 		case *ssa.Phi:
+			if havocHere {
+				name := li.havocName(x)
+				if w, signed, ok := typeWidth(x.Type(), li.p.Arch); ok {
+					st.vals[x] = avInt{lin: linSym(name), bv: bvSrc(name, w), signed: signed}
+					lo, hi := int64(0), int64(1)<<62
+					if signed {
+						lo = -(int64(1) << 62)
+					}
+					if w < 62 {
+						if signed {
+							lo, hi = -(int64(1) << uint(w-1)), int64(1)<<uint(w-1)-1
+						} else {
+							hi = int64(1)<<uint(w) - 1
+						}
+					}
+					st.env[name] = iv{lo, hi}
+				} else {
+					st.vals[x] = avOpaque{name}
+				}
+				continue
+			}
 			for i, pr := range b.Preds {
 				if pr == from {
 					st.vals[x] = li.eval(st, x.Edges[i])
@@ -660,7 +704,7 @@ func (li *layoutInterp) exec(fn *ssa.Function, st *lpath, in ssa.Instruction) []
 			}
 			break
 		}
-		res := avInt{bv: iv.bv.resize(w, iv.signed), signed: signed}
+		res := avInt{bv: li.refineBits(st, iv).resize(w, iv.signed), signed: signed}
 		if iv.lin != nil {
 			lo, hi := st.env.bounds(iv.lin)
 			max := int64(1)<<uint(minInt(w, 62)) - 1
@@ -1107,7 +1151,7 @@ func (li *layoutInterp) execBinOp(st *lpath, x *ssa.BinOp) {
 		return
 	}
 	w, signed, _ := typeWidth(x.Type(), li.p.Arch)
-	res := avInt{signed: signed, bv: bvApply(x.Op, li1.bv, ri1.bv, w, signed)}
+	res := avInt{signed: signed, bv: bvApply(x.Op, li.refineBits(st, li1), li.refineBits(st, ri1), w, signed)}
 	switch x.Op {
 	case token.ADD:
 		res.lin = li1.lin.Add(ri1.lin)
@@ -2142,4 +2186,76 @@ func (li *layoutInterp) globalStruct(g *ssa.Global, sel []int, t types.Type) (AV
 		ag.elems["."+stT.Field(i).Name()] = v
 	}
 	return ag, true
+}
+
+// pureLoop: the loop's blocks contain nothing but arithmetic, comparisons,
+// phis and branches (no store, call, send, allocation).
+func pureLoop(lp *loopInfo) bool {
+	for b := range lp.Body {
+		for _, in := range b.Instrs {
+			switch x := in.(type) {
+			case *ssa.BinOp, *ssa.Phi, *ssa.If, *ssa.Jump, *ssa.Convert, *ssa.ChangeType, *ssa.DebugRef:
+			case *ssa.UnOp:
+				if x.Op == token.MUL || x.Op == token.ARROW {
+					return false
+				}
+			default:
+				return false
+			}
+		}
+	}
+	return true
+}
+
+func (li *layoutInterp) havocName(phi *ssa.Phi) string {
+	if li.havocNames == nil {
+		li.havocNames = map[*ssa.Phi]string{}
+	}
+	if n, ok := li.havocNames[phi]; ok {
+		return n
+	}
+	n := fmt.Sprintf("loop%d.v%d", phi.Block().Index, len(li.havocNames))
+	li.havocNames[phi] = n
+	return n
+}
+
+// refineBits uses the interval of a value's linear form to fix its high bits:
+// a value in [0, 2^k) has zero bits from k up, a value in [-2^k, 0) has one
+// bits from k up (two's complement).
+func (li *layoutInterp) refineBits(st *lpath, v avInt) BV {
+	if v.lin == nil || len(v.bv) == 0 {
+		return v.bv
+	}
+	if _, isK := v.lin.IsConst(); isK {
+		return v.bv
+	}
+	lo, hi := st.env.bounds(v.lin)
+	w := len(v.bv)
+	fill := func(k int, b bit) BV {
+		out := make(BV, w)
+		copy(out, v.bv)
+		for i := k; i < w; i++ {
+			out[i] = b
+		}
+		return out
+	}
+	switch {
+	case lo >= 0 && hi >= 0 && hi < int64(1)<<40:
+		k := 0
+		for int64(1)<<uint(k) <= hi {
+			k++
+		}
+		if k < w {
+			return fill(k, bit{K: b0})
+		}
+	case hi < 0 && lo > -(int64(1)<<40):
+		k := 0
+		for -(int64(1) << uint(k)) > lo {
+			k++
+		}
+		if k < w {
+			return fill(k, bit{K: b1})
+		}
+	}
+	return v.bv
 }
